@@ -6,6 +6,8 @@ import WhVerif.Lemmas.C07Max
 import WhVerif.Lemmas.C07Fam
 import WhVerif.Lemmas.C07Pop
 import WhVerif.Lemmas.C07CompleteReplay
+import WhVerif.Lemmas.C07Pipe
+import WhVerif.Lemmas.C07Pref
 /-!
 # C07 — read selection never exceeds the coverage cap and leaves no admissible read out
 
@@ -263,5 +265,203 @@ example : allOutcomes true tie2 1 true = [.ok [0], .ok [1]] ∧
   decide
 
 example : (allOutcomes false (tie2 ++ tie2) 2 false).length = 6 := by decide
+
+
+/-! ## `whatshap phase`: the selection stage per sample and per family (`Model/C07Pipe.lean`)
+
+`sampleStage rs cap prefIds choices` = the `len(read) >= 2` filter, `select_reads` (= `readselection` of /repo with
+bridging, preferred reads = reads whose source id is a phase-input VCF) and `ReadSet.subset`; `familySel k members` runs it
+for every member with `cap = max(1, k // len(family))`, `k` = the `--internal-downsampling` integer. -/
+
+/-- **the selection stage cannot raise**: on a sample's read set whose reads are position-sorted without repeated position
+(what `Read`/`ReadSet` guarantee), the `len(read) >= 2` filter makes `readselection`'s `ValueError` unreachable, and
+the loops terminate — for every cap (also `0`), every preferred-source set, every tie choice -/
+theorem stage_total (rs : List SRead) (cap : Nat) (prefIds choices : List Nat) (hwf : ∀ r ∈ rs, r.wf = true) :
+    ∃ o, sampleStage rs cap prefIds choices = .ok o :=
+  sampleStage_ok rs cap prefIds choices hwf
+
+/-- a sample with a one-variant read, a preferred pseudo read and two ordinary reads over the same two variants -/
+def stageEx : List SRead := [⟨0, [10], [30]⟩, ⟨2, [10, 20], [9, 9]⟩, ⟨0, [10, 20], [30, 30]⟩, ⟨0, [10, 20], [20, 20]⟩]
+
+example : (∀ r ∈ stageEx, r.wf = true) ∧
+    (match sampleStage stageEx 2 [2] [] with
+     | .ok o => some (o.cands.length, o.selIdx)
+     | .error _ => none) = some (3, [0, 1]) := by decide
+
+/-- **subset, with the candidate filter**: the reads handed on for a sample are reads of the sample's read set that
+cover at least two variants, each candidate at most once, in the order of the read set (ascending candidate index);
+a read covering fewer than two variants is never handed to the solver -/
+theorem stage_subset (rs : List SRead) (cap : Nat) (prefIds choices : List Nat) (o : SampleOut)
+    (h : sampleStage rs cap prefIds choices = .ok o) :
+    o.cands = candidates rs ∧ o.selIdx.Nodup ∧ o.selIdx.Pairwise (· ≤ ·) ∧ (∀ i ∈ o.selIdx, i < o.cands.length) ∧
+    o.selected = o.selIdx.map (fun i => o.cands.getD i default) ∧
+    ∀ r ∈ o.selected, r ∈ rs ∧ 2 ≤ r.pos.length := by
+  obtain ⟨hc, ⟨sel, hsel, hidx⟩, hselected⟩ := sampleStage_spec h
+  obtain ⟨hnd, hlt⟩ := subset true _ cap true choices sel hsel
+  have hperm := sortNat_perm sel
+  have hlt' : ∀ i ∈ o.selIdx, i < o.cands.length := by
+    intro i hi
+    rw [hidx] at hi
+    have := hlt i (hperm.mem_iff.mp hi)
+    rw [hc]; simpa using this
+  refine ⟨hc, by rw [hidx]; exact hperm.nodup_iff.mpr hnd, by rw [hidx]; exact sortNat_sorted sel, hlt',
+    by rw [hselected, hc], ?_⟩
+  intro r hr
+  rw [hselected] at hr
+  obtain ⟨i, hi, rfl⟩ := List.mem_map.mp hr
+  have hi' := hlt' i hi
+  rw [hc] at hi'
+  have : (candidates rs).getD i default = (candidates rs)[i] := by
+    simp [List.getD_eq_getElem?_getD, List.getElem?_eq_getElem hi']
+  rw [this]
+  exact candidates_long rs _ (List.getElem_mem hi')
+
+example : candidates stageEx = stageEx.tail := by decide
+
+/-- **cap of the per-sample share**: no position at all is spanned (first to last covered variant) by more than `cap`
+of the reads handed on for the sample -/
+theorem stage_cap (rs : List SRead) (cap : Nat) (prefIds choices : List Nat) (o : SampleOut)
+    (h : sampleStage rs cap prefIds choices = .ok o) :
+    ∀ q, countReads (o.selected.map (SRead.toRead [])) q ≤ cap := by
+  obtain ⟨hc, ⟨sel, hsel, hidx⟩, hselected⟩ := sampleStage_spec h
+  obtain ⟨_, hlt⟩ := subset true _ cap true choices sel hsel
+  intro q
+  have hcap := cap_invariant true _ cap true choices sel hsel q
+  rw [countSel_perm (sortNat_perm sel).symm q, ← hidx, ← countReads_map] at hcap
+  refine Nat.le_trans (Nat.le_of_eq ?_) hcap
+  rw [hselected]
+  simp only [countReads, List.countP_map]
+  apply List.countP_congr
+  intro i hi
+  have hi' : i < ((candidates rs).map (SRead.toRead prefIds)).length := by
+    rw [hidx] at hi
+    exact hlt i ((sortNat_perm sel).mem_iff.mp hi)
+  simp only [Function.comp]
+  rw [getRead_map_toRead prefIds _ i (by simpa using hi')]
+  rfl
+
+/-- **maximality of the per-sample share**: every candidate (read with ≥ 2 variants) that is left out spans a variant of
+the candidates that `cap` selected reads of the sample span already -/
+theorem stage_maximal (rs : List SRead) (cap : Nat) (prefIds choices : List Nat) (o : SampleOut)
+    (h : sampleStage rs cap prefIds choices = .ok o) :
+    ∀ i, i < o.cands.length → i ∉ o.selIdx →
+      ∃ p ∈ positions (o.cands.map (SRead.toRead prefIds)),
+        ((o.cands.getD i default).toRead prefIds).spans p = true ∧
+        cap ≤ countSel (o.cands.map (SRead.toRead prefIds)) o.selIdx p := by
+  obtain ⟨hc, ⟨sel, hsel, hidx⟩, _⟩ := sampleStage_spec h
+  intro i hi hns
+  rw [hc] at hi ⊢
+  have hi' : i < ((candidates rs).map (SRead.toRead prefIds)).length := by simpa using hi
+  have hns' : i ∉ sel := fun hm => hns (by rw [hidx]; exact (sortNat_perm sel).mem_iff.mpr hm)
+  obtain ⟨p, hp, hsp, hk⟩ := maximal _ cap true choices sel hsel i hi' hns'
+  refine ⟨p, hp, ?_, ?_⟩
+  · rw [← getRead_map_toRead prefIds _ i hi]; exact hsp
+  · rw [hidx, countSel_perm (sortNat_perm sel) p]; exact hk
+
+/-- non-vacuity: cap 1 on `stageEx` with the pseudo read preferred: the pseudo read is taken, both other candidates are
+left out and saturated at position 10 -/
+example : (match sampleStage stageEx 1 [2] [] with
+     | .ok o => some (o.selIdx, countSel (o.cands.map (SRead.toRead [2])) o.selIdx 10)
+     | .error _ => none) = some ([0], 1) := by decide
+
+/-- **preferred reads come first** (repaired code = /repo): a read from a preferred source (a pseudo read of a phase-input
+VCF) is left out only if some variant it spans is already spanned by `k` selected reads that are ALL from preferred
+sources — ordinary reads never displace a preferred one -/
+theorem preferred_first (reads : List Read) (k : Nat) (br : Bool) (cs : List Nat) (sel : List Nat)
+    (h : readselection true reads k br cs = .ok sel) :
+    ∀ i, i < reads.length → (getRead reads i).pref = true → i ∉ sel →
+      ∃ S : List Nat, S.Nodup ∧ (∀ j ∈ S, j ∈ sel ∧ (getRead reads j).pref = true) ∧
+        ∃ p ∈ positions reads, (getRead reads i).spans p = true ∧ k ≤ countSel reads S p := by
+  obtain ⟨h2, rfl⟩ := readselection_ok h
+  have h1 := phase1_max reads k br cs
+  have ht := (phases_terminate true reads k br cs h2).1
+  have hsub := phase1_sub_final reads k br cs
+  have hgood := (phases_good true reads k br cs).2
+  intro i hi hpref hns
+  refine ⟨(phases true reads k br cs).1.selected, ?_, fun j hj => ⟨hsub j hj, (mem_preferredIdx_iff.mp (h1.selU j hj)).2⟩, ?_⟩
+  · -- the selected list of phase 1 is duplicate-free: it satisfies the cap/subset invariant too
+    have : HGood reads (positions reads) k (phases true reads k br cs).1 := by
+      unfold phases
+      simp only
+      have h0 : Good reads (positions reads) k [] [] :=
+        ⟨List.nodup_nil, by simp, by simp [countSel, Cov.at], by simp [Cov.at]⟩
+      split
+      · exact ⟨by simp, h0⟩
+      · exact helper_good ⟨fun i hi => mem_preferredIdx hi, h0⟩
+    exact this.2.1
+  · rcases h1.dec i (mem_preferredIdx_iff.mpr ⟨hi, hpref⟩) with hu | hs | hb
+    · rw [ht] at hu; simp at hu
+    · exact absurd (hsub i hs) hns
+    · obtain ⟨p, hp, hsp, hk⟩ := blocked_true_iff.mp hb
+      exact ⟨p, hp, hsp, by rw [← h1.exact p]; exact hk⟩
+
+/-- non-vacuity: cap 1, the preferred read 0 and the better-quality ordinary read 1 over the same variants: read 0 wins -/
+example : readselection true [⟨[10, 20], [1, 1], true⟩, ⟨[10, 20], [50, 50], false⟩] 1 true [] = .ok [0] := by decide
+
+/-- **the per-sample share** `max(1, k // len(family))` of `--internal-downsampling k`: at least 1 whatever `k` is (a cap
+of 0 or below acts as cap 1 per sample); for `k ≥ 1` at most `k`, and the shares of a family of at most `k` members
+add up to at most `k`; `validate` rejects `k > 23`, so a share never exceeds 23 -/
+theorem per_sample_share (k : Int) (m : Nat) :
+    1 ≤ perSampleCapInt k m ∧ (k ≤ 0 → perSampleCapInt k m = 1) ∧ (1 ≤ k → (perSampleCapInt k m : Int) ≤ k) ∧
+    ((m : Int) ≤ k → m * perSampleCapInt k m ≤ k.toNat) ∧ (capAccepted k = true → perSampleCapInt k m ≤ 23) := by
+  refine ⟨perSampleCapInt_ge_one k m, perSampleCapInt_nonpos k m, perSampleCapInt_le k m, perSampleCapInt_mul_le k m, ?_⟩
+  intro hacc
+  simp only [capAccepted, decide_eq_true_eq] at hacc
+  by_cases hk : 1 ≤ k
+  · have := perSampleCapInt_le k m hk; omega
+  · rw [perSampleCapInt_nonpos k m (by omega)]; omega
+
+example : perSampleCapInt 15 3 = 5 ∧ perSampleCapInt 2 3 = 1 ∧ perSampleCapInt 0 1 = 1 ∧ perSampleCapInt (-4) 2 = 1 ∧
+    perSampleCapInt 23 1 = 23 ∧ capAccepted 24 = false := by decide
+
+/-- **cap of the merged family read set** (what `merge_readsets` hands to the solver): for a family of at most `k`
+members, no position is spanned by more than `k` reads of all members together -/
+theorem family_merged_cap (k : Int) (members : List MemberIn) (os : List SampleOut)
+    (h : familySel k members = .ok os) (hk : (members.length : Int) ≤ k) :
+    ∀ q, mergedCount os q ≤ k.toNat := by
+  intro q
+  obtain ⟨hlen, hall⟩ := familyStageSel_spec k members.length members os h
+  unfold mergedCount
+  have hb := sum_map_le os (fun o => countReads (o.selected.map (SRead.toRead [])) q)
+    (perSampleCapInt k members.length) (by
+      intro o ho
+      obtain ⟨j, hj, rfl⟩ := List.getElem_of_mem ho
+      have hj' : j < members.length := by omega
+      have hz : (members[j], os[j]) ∈ members.zip os := by
+        have : (members.zip os)[j]'(by simp [List.length_zip]; omega) = (members[j], os[j]) := by simp
+        rw [← this]; exact List.getElem_mem _
+      exact stage_cap _ _ _ _ _ (hall _ _ hz) q)
+  rw [hlen] at hb
+  exact Nat.le_trans hb (perSampleCapInt_mul_le k members.length hk)
+
+/-- **maximality inside the family**: for every member, every candidate of that member that was left out is saturated
+with respect to the member's share `max(1, k // len(family))` -/
+theorem family_member_maximal (k : Int) (members : List MemberIn) (os : List SampleOut)
+    (h : familySel k members = .ok os) (x : MemberIn) (o : SampleOut) (hxo : (x, o) ∈ members.zip os) :
+    o.cands = candidates x.reads ∧
+    ∀ i, i < o.cands.length → i ∉ o.selIdx →
+      ∃ p ∈ positions (o.cands.map (SRead.toRead x.prefIds)),
+        ((o.cands.getD i default).toRead x.prefIds).spans p = true ∧
+        perSampleCapInt k members.length ≤ countSel (o.cands.map (SRead.toRead x.prefIds)) o.selIdx p := by
+  obtain ⟨_, hall⟩ := familyStageSel_spec k members.length members os h
+  have hst := hall x o hxo
+  exact ⟨(stage_subset _ _ _ _ _ hst).1, stage_maximal _ _ _ _ _ hst⟩
+
+/-- a trio with 3 identical two-variant reads per member, `--internal-downsampling 3`: one read per member -/
+def famEx : List MemberIn :=
+  List.replicate 3 ⟨[⟨0, [10, 20], [30, 30]⟩, ⟨0, [10, 20], [30, 30]⟩, ⟨0, [10, 20], [30, 30]⟩], [], []⟩
+
+example : (match familySel 3 famEx with
+     | .ok os => some (os.map (·.selIdx), mergedCount os 10, mergedCount os 15)
+     | .error _ => none) = some ([[0], [0], [0]], 3, 3) ∧ ((famEx.length : Int) ≤ 3) := by decide
+
+/-- **the solver's table**: a column of the DP ranges over the bipartitions of the reads spanning it; with at most `k`
+such reads (and `k ≤ 23` enforced by `validate`) it has at most `2^k ≤ 2^23` rows -/
+theorem solver_table_bound (k : Int) (members : List MemberIn) (os : List SampleOut)
+    (h : familySel k members = .ok os) (hk : (members.length : Int) ≤ k) (hacc : capAccepted k = true) (q : Nat) :
+    2 ^ mergedCount os q ≤ 2 ^ k.toNat ∧ 2 ^ k.toNat ≤ 2 ^ 23 := by
+  simp only [capAccepted, decide_eq_true_eq] at hacc
+  exact ⟨Nat.pow_le_pow_right (by omega) (family_merged_cap k members os h hk q),
+    Nat.pow_le_pow_right (by omega) (by omega)⟩
 
 end WhVerif.Props.C07
